@@ -319,6 +319,7 @@ def to_rat(v):
 # --------------------------------------------------------------------------
 _NP_INEXACT = ('np.float16', 'np.float32', 'np.float64', 'np.float128',
                'np.complex64', 'np.complex128', 'np.complex256')
+_NONFINITE = ('np.inf', '-np.inf', 'np.nan')
 _CALL_FLAGS = ('_call_has_out', '_call_out_optional')
 
 
@@ -1474,6 +1475,8 @@ class Interp(object):
     def truth_value(self, v, node=None):
         if isinstance(v, bool):
             return v
+        if type(v).__name__ in ('bool_', 'bool'):      # numpy.bool_
+            return bool(v)
         if v is None:
             return False
         if isinstance(v, (int, float, Fr)):
@@ -1760,14 +1763,25 @@ class Interp(object):
                 return l == r
             except Exception:
                 return False
+        if isinstance(l, Inst) and isinstance(r, Inst):
+            dc, m = self.model.lookup(l.ci, '__eq__')
+            if not isinstance(m, ast.FunctionDef):
+                return False            # object identity (l is not r here)
         if isinstance(l, slice) or isinstance(r, slice):
             if not (isinstance(l, slice) and isinstance(r, slice)):
                 return False
             return all(self.truth_value(self.equal(a, b, node), node)
                        for a, b in zip((l.start, l.stop, l.step),
                                        (r.start, r.stop, r.step)))
+        for a, b in ((l, r), (r, l)):
+            if isinstance(a, Opaque) and a.desc in _NONFINITE:
+                if is_scalar(b):
+                    return False          # a finite number
+                if isinstance(b, Opaque) and b.desc in _NONFINITE:
+                    return a.desc == b.desc and 'nan' not in a.desc
         if isinstance(l, Opaque) or isinstance(r, Opaque):
-            return _Cond('eq:%s' % ast.unparse(node))
+            return _Cond('eq:%s' % (ast.unparse(node) if node is not None
+                                    else '%r == %r' % (l, r)))
         raise Undecided('equality of %r and %r' % (l, r))
 
     def contains(self, container, item, node):
